@@ -173,6 +173,7 @@ type E3 struct {
 	pureMemo map[*ssa.Function]int
 	pureCalls map[*ssa.Function]map[string]ssa.Value
 	loadMemoAny map[*ssa.UnOp]ssa.Value
+	finv     map[fieldKey]*fieldInv
 }
 
 type retKey struct {
@@ -708,6 +709,18 @@ func (e *E3) rng1(v ssa.Value, tr ival) ival {
 					}
 				}
 			}
+			// integer field with a derived object invariant (counter ≤ K)
+			if isIntType(x.Type()) {
+				if hi, ok := e.fieldLoadUpper(x); ok && hi < tr.hi {
+					lo := tr.lo
+					if lo < 0 {
+						// signed counters: the derivation only admits constants ≥ 0, decrements that do not wrap below the
+						// subtrahend and guarded increments, so the field never goes below 0 either
+						lo = 0
+					}
+					return ival{lo, hi}
+				}
+			}
 		}
 		return tr
 	case *ssa.Index:
@@ -847,12 +860,130 @@ func (e *E3) rngPhi(phi *ssa.Phi, tr ival) ival {
 		return *init
 	}
 	if incOK {
-		return ival{init.lo, tr.hi}
+		hi := tr.hi
+		if b, ok := e.backEdgeBound(phi, true); ok {
+			hi = b
+			if init.hi > hi {
+				hi = init.hi
+			}
+		}
+		return ival{init.lo, hi}
 	}
 	if decOK {
-		return ival{tr.lo, init.hi}
+		lo := tr.lo
+		if b, ok := e.backEdgeBound(phi, false); ok {
+			lo = b
+			if init.lo < lo {
+				lo = init.lo
+			}
+		}
+		return ival{lo, init.hi}
 	}
 	return tr
+}
+
+// backEdgeBound: for a monotone loop phi, the bound that the loop guard puts on every value flowing around a
+// back edge: each back-edge predecessor must be dominated by a comparison phi + c ⋈ K (K with a known constant
+// bound, not depending on the phi) from which the back-edge value phi + d gets an upper (lower) bound.
+func (e *E3) backEdgeBound(phi *ssa.Phi, upper bool) (int64, bool) {
+	b := phi.Block()
+	var best int64
+	found := false
+	for k, pr := range b.Preds {
+		if !b.Dominates(pr) {
+			continue
+		}
+		av := affineWide(phi.Edges[k])
+		if av == nil || av.coef(phi) != 1 || len(av.Terms) != 1 {
+			return 0, false
+		}
+		d := av.C // back-edge value = phi + d
+		edgeBound, ok := int64(0), false
+		for _, cd := range condsAt(pr) {
+			bo, isBo := cd.V.(*ssa.BinOp)
+			if !isBo || !isIntType(bo.X.Type()) {
+				continue
+			}
+			// cd.At must be inside the loop (dominated by the header) so that the comparison is re-evaluated each iteration
+			if !b.Dominates(cd.At) {
+				continue
+			}
+			op := bo.Op
+			if !cd.True {
+				switch op {
+				case token.LSS:
+					op = token.GEQ
+				case token.LEQ:
+					op = token.GTR
+				case token.GTR:
+					op = token.LEQ
+				case token.GEQ:
+					op = token.LSS
+				default:
+					continue
+				}
+			}
+			try := func(x, y ssa.Value, op token.Token) {
+				ax := affineWide(x)
+				if ax == nil || ax.coef(phi) != 1 || len(ax.Terms) != 1 {
+					return
+				}
+				if ay := affineWide(y); ay != nil && ay.coef(phi) != 0 {
+					return
+				}
+				// y must not depend on the phi through memory either: require a constant or a value defined outside the loop
+				if in, isIn := y.(ssa.Instruction); isIn && b.Dominates(in.Block()) {
+					if _, isC := y.(*ssa.Const); !isC {
+						return
+					}
+				}
+				ry := e.rng(y)
+				c := ax.C // x = phi + c
+				switch {
+				case upper && (op == token.LSS || op == token.LEQ) && ry.hi < inf:
+					// phi + c < K ⇒ phi ≤ K − 1 − c ⇒ phi + d ≤ K − 1 − c + d
+					kb := ry.hi - c + d
+					if op == token.LSS {
+						kb--
+					}
+					if !ok || kb < edgeBound {
+						edgeBound, ok = kb, true
+					}
+				case !upper && (op == token.GTR || op == token.GEQ) && ry.lo > -inf:
+					kb := ry.lo - c + d
+					if op == token.GTR {
+						kb++
+					}
+					if !ok || kb > edgeBound {
+						edgeBound, ok = kb, true
+					}
+				}
+			}
+			try(bo.X, bo.Y, op)
+			// mirrored
+			var mop token.Token
+			switch op {
+			case token.LSS:
+				mop = token.GTR
+			case token.LEQ:
+				mop = token.GEQ
+			case token.GTR:
+				mop = token.LSS
+			case token.GEQ:
+				mop = token.LEQ
+			default:
+				continue
+			}
+			try(bo.Y, bo.X, mop)
+		}
+		if !ok {
+			return 0, false
+		}
+		if !found || (upper && edgeBound > best) || (!upper && edgeBound < best) {
+			best, found = edgeBound, true
+		}
+	}
+	return best, found
 }
 
 // phiMonotone classifies a loop phi: every back-edge value is phi + d with d ≥ 0 (inc) or d ≤ 0 (dec);
@@ -1268,6 +1399,9 @@ func (g *factGraph) touch(t termT, d int) {
 			}
 		}
 	case *ssa.Phi:
+		if isIntType(x.Type()) {
+			g.counterFacts(x, t, d)
+		}
 		// monotone loop counter: phi ≥ init (increasing) / phi ≤ init (decreasing)
 		if isIntType(x.Type()) {
 			inc, dec, inits := e.phiMonotone(x)
@@ -1395,6 +1529,7 @@ func (g *factGraph) lenFacts(t termT, d int) {
 		g.eq(zeroT, t, n)
 		return
 	}
+	g.accessFacts(t, d)
 	switch x := v.(type) {
 	case *ssa.Slice:
 		base := termT{v: e.lenBase(x.X), len: true}
@@ -1415,6 +1550,11 @@ func (g *factGraph) lenFacts(t termT, d int) {
 				// hi − lo = LEN: (hi − lo) ≤ LEN.hi … express LEN − 0 via ranges of hi and lo when constant
 				if k, ok := constIntV(x.Low); ok {
 					g.eq(hi, t, -k)
+				} else if ah, al := affineWide(x.High), affineWide(x.Low); ah != nil && al != nil && is64(x.High.Type()) && is64(x.Low.Type()) {
+					// buf[i+14 : i+16]: the difference of two affine forms over the same 64-bit values is a constant
+					if k, isC := ah.clone().addScaled(al, -1).isConst(); isC && k >= 0 {
+						g.eq(zeroT, t, k)
+					}
 				}
 			}
 		} else {
@@ -1477,6 +1617,148 @@ func (g *factGraph) lenFacts(t termT, d int) {
 		if same && n >= 0 {
 			g.eq(zeroT, t, n)
 		}
+	}
+}
+
+// accessFacts: an index or slice expression on the same base in a block that strictly dominates the program
+// point was executed without panicking, so its bounds held: idx ≤ LEN − 1, high ≤ LEN. (Sound for SSA slice
+// values, whose length never changes; if the earlier access panicked the later point is never reached.)
+func (g *factGraph) accessFacts(t termT, d int) {
+	if g.at == nil || t.v == nil {
+		return
+	}
+	e := g.e
+	for _, rf := range refs(t.v) {
+		in, ok := rf.(ssa.Instruction)
+		if !ok || in.Block() == g.at || in.Block().Parent() != g.at.Parent() || !in.Block().Dominates(g.at) {
+			continue
+		}
+		switch x := rf.(type) {
+		case *ssa.IndexAddr:
+			if x.X == t.v {
+				it := e.termOf(x.Index)
+				g.touch(it, d+1)
+				g.add(t, it, -1)
+			}
+		case *ssa.Index:
+			if x.X == t.v {
+				it := e.termOf(x.Index)
+				g.touch(it, d+1)
+				g.add(t, it, -1)
+			}
+		case *ssa.Lookup:
+			if x.X == t.v && isStringType(x.X.Type()) {
+				it := e.termOf(x.Index)
+				g.touch(it, d+1)
+				g.add(t, it, -1)
+			}
+		case *ssa.Slice:
+			if x.X != t.v {
+				continue
+			}
+			if x.High != nil {
+				ht := e.termOf(x.High)
+				g.touch(ht, d+1)
+				g.add(t, ht, 0)
+			} else if x.Low != nil {
+				lt := e.termOf(x.Low)
+				g.touch(lt, d+1)
+				g.add(t, lt, 0)
+			}
+		}
+	}
+}
+
+// counterFacts: j is a counter that grows by at most one per iteration (every back-edge value is j or j+1,
+// possibly through joins inside the loop) and i is a phi of the same loop header that grows by exactly one on
+// every back edge: then j − i ≤ init(j) − init(i) at the header and, the steps being simultaneous, everywhere in
+// the loop body before the increments (values, not program points, are compared: both phis are fixed during one
+// iteration).
+func (g *factGraph) counterFacts(j *ssa.Phi, t termT, d int) {
+	b := j.Block()
+	var backIdx []int
+	var initJ ssa.Value
+	for k, pr := range b.Preds {
+		if b.Dominates(pr) {
+			backIdx = append(backIdx, k)
+		} else if initJ == nil {
+			initJ = j.Edges[k]
+		} else if initJ != j.Edges[k] {
+			return
+		}
+	}
+	cj, ok := constInt(initJ)
+	if !ok || len(backIdx) == 0 {
+		return
+	}
+	// every back-edge value of j is j or j+1 through acyclic joins
+	var atMostOne func(v ssa.Value, depth int) bool
+	atMostOne = func(v ssa.Value, depth int) bool {
+		if depth > 6 {
+			return false
+		}
+		if v == ssa.Value(j) {
+			return true
+		}
+		switch x := v.(type) {
+		case *ssa.BinOp:
+			if x.Op == token.ADD {
+				if k, ok := constInt(x.Y); ok && (k == 0 || k == 1) {
+					return atMostOne(x.X, depth+1)
+				}
+			}
+		case *ssa.Phi:
+			if x.Block() == b {
+				return false
+			}
+			for _, ed := range x.Edges {
+				if !atMostOne(ed, depth+1) {
+					return false
+				}
+			}
+			return true
+		}
+		return false
+	}
+	for _, k := range backIdx {
+		if !atMostOne(j.Edges[k], 0) {
+			return
+		}
+	}
+	for _, in := range b.Instrs {
+		i, ok := in.(*ssa.Phi)
+		if !ok {
+			break
+		}
+		if i == j || !isIntType(i.Type()) {
+			continue
+		}
+		var initI ssa.Value
+		exact := true
+		for k, pr := range b.Preds {
+			if b.Dominates(pr) {
+				bo, ok := i.Edges[k].(*ssa.BinOp)
+				if !ok || bo.Op != token.ADD || bo.X != ssa.Value(i) {
+					exact = false
+					break
+				}
+				if c, ok := constInt(bo.Y); !ok || c != 1 {
+					exact = false
+					break
+				}
+			} else if initI == nil {
+				initI = i.Edges[k]
+			} else if initI != i.Edges[k] {
+				exact = false
+			}
+		}
+		ci, okc := constInt(initI)
+		if !exact || !okc {
+			continue
+		}
+		it := g.e.termOf(i)
+		g.touch(it, d+1)
+		g.add(it, t, cj-ci) // j − i ≤ cj − ci
 	}
 }
 
